@@ -144,3 +144,29 @@ Proof.
   change (98 =? 98) with true. cbn [negb andb next_is_quote]. rewrite Hq, E2. cbn [negb andb]. cbv iota.
   apply (tok_scan true q _ Norm [] _ s rest Hs).
 Qed.
+
+(* ------------------------------------------------------------------ inert text (finite floats) *)
+Lemma float_char_facts c : float_char c = true ->
+  is_quote c = false /\ (c =? 35) = false /\ (c =? BS) = false /\ (c =? 98) = false.
+Proof.
+  unfold float_char, is_quote, SQ, DQ, BS. intros H.
+  repeat match goal with
+  | H: _ || _ = true |- _ => apply orb_true_iff in H; destruct H as [H|H]
+  end; b2p;
+  (repeat split; try (apply N.eqb_neq; lia); apply orb_false_iff; split; apply N.eqb_neq; lia).
+Qed.
+
+(* a float rendering is passed character by character: it opens no literal and no comment, and the
+   machine is in default state afterwards *)
+Theorem float_inert : forall t l prev acc,
+  forallb float_char t = true ->
+  exists prev', tok_line (LDef prev) acc (t ++ l) = tok_line (LDef prev') (rev (map TkChar t) ++ acc) l.
+Proof.
+  induction t as [|c t IH]; intros l prev acc H.
+  - exists prev. reflexivity.
+  - cbn [forallb] in H. apply andb_true_iff in H. destruct H as [Hc Ht].
+    destruct (float_char_facts c Hc) as (H1 & H2 & H3 & H4).
+    cbn [app tok_line]. rewrite H1, H2, H3, H4. cbn [andb].
+    destruct (IH l (is_ident_char c) (TkChar c :: acc) Ht) as (p' & E).
+    exists p'. rewrite E. cbn [map rev]. rewrite <- app_assoc. reflexivity.
+Qed.
